@@ -122,6 +122,7 @@ macro_rules! lookup_instance {
 //@ tier: quick
 //@ timeout: 900
 //@ unwindset: ^memcmp#0=34
+//@ fsarray: 1024
 //@ kernel: Index::{get_id,has} (binary search), GlobalIndex::{new_from_index,get_id,has}, ReadIndex::{get_tree,get_data,has_tree,has_data}, IndexEntry::new
 //@ bound: per instance dN_tM: N data and M tree entries (concrete counts), ids symbolic in {0,1,2,3}||0^31 (duplicates and same id under both types occur), pack index, offset, length, uncompressed length symbolic; index mode Full / DataIds / OnlyTrees per instance; symbolic (type,id) query; loops unwound 6 (binary search needs <= 3 iterations for <= 4 entries), memcmp 34
 //@ oracle: has <=> a row of that type lists the id and the mode retains presence; get_id is Some <=> listed and the mode retains locations, and (pack,offset,length,uncompressed) equal one listing of that (type,id); tree/data never mix; typed helpers agree
@@ -135,6 +136,7 @@ lookup_instance!(c17_lookup_trees_d2_t2, 2, 2, 2);
 //@ tier: thorough
 //@ timeout: 1800
 //@ unwindset: ^memcmp#0=34
+//@ fsarray: 1024
 //@ kernel: as c17_lookup_full_d2_t1
 //@ bound: as c17_lookup_full_d2_t1 with 3+2 and 4+1 entries
 //@ oracle: as c17_lookup_full_d2_t1
@@ -146,15 +148,32 @@ lookup_instance!(c17_lookup_full_d4_t1, 4, 1, 0);
 // collector: IndexCollector::{new, extend}
 // ---------------------------------------------------------------------------
 fn mk_pack(n: u8, tpe: BlobType, nblobs: usize, with_size: bool) -> IndexPack {
-    let mut blobs = Vec::with_capacity(2);
-    let mut i = 0;
-    while i < nblobs { blobs.push(IndexBlob { id: any_bid(), tpe, location: any_loc() }); i += 1; }
+    // built from array literals (typed allocation): CBMC then folds `blobs[0].tpe` to a constant, which the
+    // real `extend` uses as an EnumMap index (a symbolic index there costs > 12 GB of SAT memory)
+    let b = || IndexBlob { id: any_bid(), tpe, location: any_loc() };
+    let blobs = match nblobs { 0 => Vec::new(), 1 => vec![b()], _ => vec![b(), b()] };
     IndexPack { id: pid(n), blobs, time: None, size: if with_size { Some(kani::any()) } else { None } }
+}
+
+/// IndexCollector::new(mode) with spare capacity in its (empty) vectors, so that `extend` never takes
+/// std's Vec growth/realloc path (capacity is not observable; growth is std code, not rustic_core's).
+/// Without this a two-element extend costs > 12 GB of SAT memory (measured).
+fn roomy_collector(mode: IndexType) -> IndexCollector {
+    let mut c = IndexCollector::new(mode);
+    for t in [BlobType::Tree, BlobType::Data] {
+        c.0[t].packs = Vec::with_capacity(4);
+        match &mut c.0[t].entries {
+            EntriesVariants::FullEntries(v) => *v = Vec::with_capacity(4),
+            EntriesVariants::Ids(v) => *v = Vec::with_capacity(4),
+            EntriesVariants::None => {}
+        }
+    }
+    c
 }
 
 fn collector_check<const NP: usize>(shape: [usize; NP], ptypes: [BlobType; NP], mode: IndexType) {
     // packs are homogeneous (all blobs of a pack have the pack's type); types concrete per instance
-    let mut c = IndexCollector::new(mode);
+    let mut c = roomy_collector(mode);
     let mut types = [BlobType::Data; NP];
     // plain copies of what is fed in (<= 2 blobs per pack)
     let dummy = Row { id: BlobId::from(vh::mk_id(0)), pack_idx: 0, loc: BlobLocation { offset: 0, length: 0, uncompressed_length: None } };
@@ -226,26 +245,30 @@ macro_rules! collector_instance {
         pub(crate) fn $name() { collector_check($shape, $types, $mode); }
     };
 }
-//@ instance: c17_collect_full_2_1 c17_collect_ids_2_1 c17_collect_trees_0_2 c17_collect_full_1_1_2 c17_collect_ids_2_2 c17_collect_trees_2_1 c17_collect_full_2
-//@ harness: c17_collect_full_2_1 c17_collect_ids_2_1 c17_collect_trees_0_2
+//@ instance: c17_collect_full_1_1 c17_collect_ids_1_1 c17_collect_full_2_1 c17_collect_ids_2_1 c17_collect_trees_0_2 c17_collect_full_1_1_2 c17_collect_ids_2_2 c17_collect_trees_2_1 c17_collect_full_2
+//@ harness: c17_collect_full_1_1 c17_collect_ids_1_1 c17_collect_trees_0_2
 //@ prop: C17
 //@ tier: quick
 //@ timeout: 900
 //@ mem: 12
 //@ unwindset: ^memcmp#0=34
+//@ fsarray: 1024
 //@ kernel: IndexCollector::{new, extend}, IndexPack::{blob_type, pack_size}
-//@ bound: per instance: concrete number of packs and blobs per pack (2_1 = two packs with 2 and 1 blobs, ...), pack types concrete per instance (both orders occur), blob ids symbolic in a 4-element domain, locations and pack sizes symbolic; all three IndexType modes across instances
+//@ bound: per instance: concrete number of packs and blobs per pack (1_1 = two packs with one blob each, 0_2 = an empty pack and a pack with 2 blobs, 2 = one pack with 2 blobs), pack types concrete per instance (both orders occur), blob ids symbolic in a 4-element domain, locations and pack sizes symbolic; all three IndexType modes across instances
 //@ oracle: after extend the collector holds, per type, the packs of that type in input order with their sizes, total_size == sum of pack sizes (empty packs count as data), and exactly the listed (id, pack index, location) entries in order - ids only in DataIds mode, nothing for data in OnlyTrees mode
-//@ assume: packs are homogeneous (every blob of a pack has the pack's type; restic/rustic never write mixed packs since rustic 0.1 and check flags mixed packs)
+//@ assume: packs are homogeneous (every blob of a pack has the pack's type; rustic never writes mixed packs and `check` flags them); the collector's vectors start with spare capacity 4 (no std Vec reallocation inside extend; capacity is unobservable)
 //@ outside: marked packs (packs_to_delete) are excluded by the caller new_from_collector, which sits behind a rayon stream (not compilable by Kani)
-collector_instance!(c17_collect_full_2_1, [2, 1], [BlobType::Data, BlobType::Tree], IndexType::Full);
-collector_instance!(c17_collect_ids_2_1, [2, 1], [BlobType::Data, BlobType::Data], IndexType::DataIds);
+collector_instance!(c17_collect_full_1_1, [1, 1], [BlobType::Data, BlobType::Tree], IndexType::Full);
+collector_instance!(c17_collect_ids_1_1, [1, 1], [BlobType::Data, BlobType::Data], IndexType::DataIds);
+collector_instance!(c17_collect_full_2, [2], [BlobType::Data], IndexType::Full);
 collector_instance!(c17_collect_trees_0_2, [0, 2], [BlobType::Tree, BlobType::Data], IndexType::OnlyTrees);
-//@ harness: c17_collect_full_1_1_2 c17_collect_ids_2_2 c17_collect_trees_2_1 c17_collect_full_2
+//@ harness: c17_collect_full_2 c17_collect_full_2_1 c17_collect_ids_2_1 c17_collect_full_1_1_2 c17_collect_ids_2_2 c17_collect_trees_2_1
 //@ prop: C17
 //@ tier: thorough
-//@ timeout: 1800
+//@ timeout: 2400
+//@ mem: 30
 //@ unwindset: ^memcmp#0=34
+//@ fsarray: 1024
 //@ kernel: as c17_collect_full_2_1
 //@ bound: as c17_collect_full_2_1, shapes (1,1,2), (2,2), (2,1), (2)
 //@ oracle: as c17_collect_full_2_1
@@ -253,7 +276,8 @@ collector_instance!(c17_collect_trees_0_2, [0, 2], [BlobType::Tree, BlobType::Da
 collector_instance!(c17_collect_full_1_1_2, [1, 1, 2], [BlobType::Tree, BlobType::Data, BlobType::Tree], IndexType::Full);
 collector_instance!(c17_collect_ids_2_2, [2, 2], [BlobType::Tree, BlobType::Data], IndexType::DataIds);
 collector_instance!(c17_collect_trees_2_1, [2, 1], [BlobType::Tree, BlobType::Tree], IndexType::OnlyTrees);
-collector_instance!(c17_collect_full_2, [2], [BlobType::Data], IndexType::Full);
+collector_instance!(c17_collect_full_2_1, [2, 1], [BlobType::Data, BlobType::Tree], IndexType::Full);
+collector_instance!(c17_collect_ids_2_1, [2, 1], [BlobType::Data, BlobType::Data], IndexType::DataIds);
 
 // ---------------------------------------------------------------------------
 // PackIndexes::next on entries assumed sorted by pack index
@@ -263,6 +287,7 @@ collector_instance!(c17_collect_full_2, [2], [BlobType::Data], IndexType::Full);
 //@ tier: quick
 //@ timeout: 900
 //@ unwindset: ^memcmp#0=34
+//@ fsarray: 1024
 //@ kernel: PackIndexes::next
 //@ bound: tree index: 2 packs, 2 entries; data index: 2 packs, 3 entries; pack_idx symbolic, assumed sorted by pack_idx (post-condition of the trusted sort in Index::into_iter); ids/locations symbolic
 //@ oracle: iteration yields every pack exactly once (trees first, then data, in pack order) with exactly the entries whose pack_idx names it, as IndexBlobs of the right type; then None
@@ -341,7 +366,7 @@ impl<T: Send> SeqSliceMut<T> for [T] {
 }
 
 fn e2e_check<const NP: usize>(shape: [usize; NP], ptypes: [BlobType; NP], mode: IndexType) {
-    let mut c = IndexCollector::new(mode);
+    let mut c = roomy_collector(mode);
     let dummy = Row { id: BlobId::from(vh::mk_id(0)), pack_idx: 0, loc: BlobLocation { offset: 0, length: 0, uncompressed_length: None } };
     let mut rows = [[dummy; 2]; NP];
     let mut sizes = [0u32; NP];
@@ -410,10 +435,11 @@ macro_rules! e2e_instance {
 //@ instance: c17_e2e_full_2 c17_e2e_full_2_1 c17_e2e_ids_2_1 c17_e2e_trees_1_2 c17_e2e_full_2_2
 //@ harness: c17_e2e_full_2 c17_e2e_full_2_1
 //@ prop: C17
-//@ tier: quick
-//@ timeout: 1200
-//@ mem: 12
+//@ tier: thorough
+//@ timeout: 3000
+//@ mem: 30
 //@ unwindset: ^memcmp#0=34
+//@ fsarray: 1024
 //@ kernel: IndexCollector::{new,extend,into_index} -> Index::{has,get_id,total_size}; the sort call sites inside into_index
 //@ bound: per instance: concrete pack/blob counts and pack types ((2 data), (2 data, 1 tree)), ids symbolic in a 4-element domain, locations/sizes symbolic; symbolic (type,id) query; loops unwound 5, memcmp 34
 //@ oracle: through the real collector and the real into_index: has <=> listed (for what the mode retains), get_id returns one listing of that (type,id), total_size == sum of listed pack sizes per type
@@ -427,6 +453,7 @@ e2e_instance!(c17_e2e_full_2_1, [2, 1], [BlobType::Data, BlobType::Tree], IndexT
 //@ timeout: 3000
 //@ mem: 16
 //@ unwindset: ^memcmp#0=34
+//@ fsarray: 1024
 //@ kernel: as c17_e2e_full_2
 //@ bound: as c17_e2e_full_2, shapes (2,1) ids-only, (1,2) trees-only, (2,2) full
 //@ oracle: as c17_e2e_full_2
@@ -435,3 +462,4 @@ e2e_instance!(c17_e2e_full_2_1, [2, 1], [BlobType::Data, BlobType::Tree], IndexT
 e2e_instance!(c17_e2e_ids_2_1, [2, 1], [BlobType::Data, BlobType::Data], IndexType::DataIds);
 e2e_instance!(c17_e2e_trees_1_2, [1, 2], [BlobType::Data, BlobType::Tree], IndexType::OnlyTrees);
 e2e_instance!(c17_e2e_full_2_2, [2, 2], [BlobType::Tree, BlobType::Tree], IndexType::Full);
+
